@@ -648,16 +648,16 @@ PROPS = {
                 'streams; non-trivial = the path has at least two non-empty segments; distinct by (path, schedule)',
         'exhaustive_note': 'strings <= k over the 6-byte alphabet x all schedules (not the whole input space: exhaustive=false)',
         'assumptions': ['std::path of the toolchain the harness is compiled with is the oracle; it is run on every case'],
-        'level_text': 'Proved in Coq for all byte strings and all front/back schedules: the model of the Unix parser yields exactly the pops of the declarative component list ucomps, every remainder re-parses to the un-consumed middle, has_root/is_absolute/try_from agree with it (C01_holds, C01_interleave, C01_components; closed under the global context). The model is tied to the code, and ucomps to real std::path, by running both on every explored case.',
-        'level_note': 'Trusted: Coq kernel; extraction (ExtrOcamlBasic); driver/harness glue; the correspondence is sampled (bounded-exhaustive + random), so agreement of model and code, and of ucomps and std, is established on the explored cases only. std::path is not transcribed into Coq yet: ucomps is its specification.',
+        'level_text': 'Proved in Coq for all byte strings and all front/back schedules: the model of the Unix parser yields exactly the pops of the declarative component list ucomps, every remainder re-parses to the un-consumed middle, has_root/is_absolute (also asked of the partially consumed iterator) and try_from agree with it (C01_holds, C01_interleave, C01_components). The Gallina transcription of std::path Components (front/back state machine with trimming as_path) yields the same list from the front and, reversed, from the back, its remainders read as the unconsumed components, it reports a root exactly when the model does (C01_std_front, C01_std_back, C01_std_front_step, C01_std_back_step, C01_std_remainder_front/back, C01_std_has_root). All closed under the global context. The model is tied to the code, and the transcription and ucomps to the real std::path, by running all of them on every explored case.',
+        'level_note': 'Trusted: Coq kernel; extraction (ExtrOcamlBasic); driver/harness glue; the correspondence is sampled (bounded-exhaustive + random), so agreement of model and code, and of the std transcription and the real std::path, is established on the explored cases only. Arbitrary interleavings of front and back steps are proved for the model, front-only and back-only runs for the std transcription (C01_std_interleave_partial).',
         'design_ref': 'DESIGN.md 5/C01',
     },
     'C02': P(gen_c02, 'Proved in Coq for all byte strings (Props/C02.v): the model prefix parser equals the declarative six-kind grammar, the component list equals the specification wspec, every prefix/root/absoluteness query equals its definition over that decomposition, drive letters are upper-case ASCII, at most one prefix and only first. The same specification is evaluated on the implementation output of every explored case (oracle_c02: components from both ends, 13 queries, try_from, prefix length/verbatim flag).', NOTE_CORR),
     'C03': P(gen_c03, 'Double-ended coherence: interleaving theorem over the generic core parser (CoreSched.sched_spec) instantiated for Unix and for the Windows body; offsets/conservation checked by correspondence.', NOTE_CORR),
     'C04': P(gen_pairs('c04'), 'Checked join: decision procedure (scan) modelled and tied to the code for byte, UTF-8 and typed families; theorems in Props/C04.v.', NOTE_CORR),
     'C05': P(gen_pairs('c05'), 'Proved in Coq for all byte strings, both encodings (Props/C05.v): equality iff equal specification component sequences (Windows prefixes by parsed kind), the order is the lexicographic lift of the component order and is total (antisymmetric, transitive, Equal iff equal), the hasher feed is the derived hash of the parsed prefix kind followed by the bytes of every non-root component and their total length, hence equal paths feed identical data (C05_unix_eq_same_hash, C05_windows_eq_same_hash, C05_windows_hash_feed; the separator scan is proved once for any separator test and normalisation flag). All closed under the global context; the same statements are evaluated on the implementation output (recorded Hasher calls) of every explored pair by oracle_c05.', NOTE_CORR),
-    'C06': P(gen_c06, 'Unix queries against a Gallina transcription of std::path (StdUnix.v), itself diffed against the real std::path on every case.', NOTE_CORR),
-    'C07': P(gen_c07, 'Unix buffer histories against the std::path::PathBuf transcription and the real PathBuf.', NOTE_CORR),
+    'C06': P(gen_c06, 'Proved in Coq for all byte strings (Props/C06.v): the Gallina transcription of std::path (Components state machine, as_path trimming, parent, file_name, file_stem, extension, starts_with, ends_with, strip_prefix, eq, cmp, ancestors) and the typed-path model give the same answer: components from both ends, eq, cmp, has_root, file_name/stem/extension byte for byte, starts_with, ends_with; parent absent for both or for both a leading slice with all components but the last; ancestors chains pairwise equal paths; strip_prefix succeeds for both or neither with equal remainders as paths (bytes differ exactly in known class D8, refuted-witness lemma). The transcription is diffed against the real std::path on every explored case (pair.c06). Byte identity of the two parents is decided on explored cases only (C06_parent_bytes_partial).', NOTE_CORR),
+    'C07': P(gen_c07, 'Proved in Coq (Props/C07.v): for EVERY history of push / pop / set_file_name / clear / extend / collect / join / with_file_name and every pair of component-equal start buffers, the typed-path buffer and the std::path::PathBuf transcription are component-equal after every step and every boolean result agrees (C07_history, by induction over the history); a non-empty push is the same byte function on both sides, also when std carries the extra trailing / left by an empty push (relation Rb, kept by push/clear/extend/collect). Every explored history is also run on the real std::path::PathBuf (pair.hist: booleans, component equality, byte equality after non-empty pushes). That pop/set_file_name keep the byte-level relation is decided on explored histories only (C07_bytes_partial).', NOTE_CORR),
     'C08': P(gen_c08, 'Proved in Coq for ALL pairs of byte strings: the model of WindowsEncoding::push equals the documented rule table Spec.join_spec (written over the grammar specification only), every history of pushes is the same fold of the table, empty b changes nothing, a prefixed b replaces a, the non-verbatim results are a (or its prefix) + optional separator + b, the verbatim step never lets a . or .. through (Props/C08.v: C08_bytes, C08_histories, C08_empty, C08_prefixed, C08_nonverbatim_bytes, C08_verbatim_step_clean; closed under the global context). join_spec itself is evaluated on the implementation output of every explored pair and push history (oracle_c08, oracle_hist). The component-level reading of the non-verbatim branches is decided by the C10 oracle.', NOTE_CORR),
     'C09': P(gen_unary('c09'), 'parent / ancestors / pop: proved from the back-step lemma of the core parser; tied to the code for all families.', NOTE_CORR),
     'C10': P(gen_pairs('c10'), 'Proved in Coq (Props/C10.v): for any double-ended component iterator whose components are determined by their bytes, helpers::iter_after decides exactly the leading-run / trailing-run relation (C10_abstract_front); at Unix, for all byte strings: starts_with iff q components are a leading run of p, ends_with mirror image, strip_prefix succeeds iff starts_with and its remainder re-parses to the rest, equal paths start/end with each other, a joined with a relative b starts with a and stripping yields what b adds. Windows components are not determined by their bytes: known finding D7; D10 and D15 are the two further Windows classes; everything else is decided for Windows by oracle_c10 (component relations over the grammar spec, join-back, join consistency) on every explored pair.', NOTE_CORR),
